@@ -96,13 +96,18 @@ def gather_atoms(
             symbol_names.append(st.name)
             symbols[st.name] = st.symbol
             lookup[st.name] = st
+            symbol_values[st.name].add(st.expr)
 
     # A name can only be one kind of atom, e.g not both a state and a parameter
-    # (even if the values are the same)
+    # or both a parameter and an assignment (even if the values are the same)
     parameter_names = {p.name for component in components for p in component.parameters}
     state_names = {s.name for component in components for s in component.states}
-    for name in parameter_names & state_names:
-        symbol_values[name].update({("parameter", name), ("state", name)})
+    assignment_names = {a.name for component in components for a in component.assignments}
+    clashes = (parameter_names & state_names) | (
+        assignment_names & (parameter_names | state_names)
+    )
+    for name in clashes:
+        symbol_values[name].update({("kind", 1), ("kind", 2)})
     return AllAtoms(symbol_names, symbol_values, symbols, lookup)
 
 
